@@ -49,7 +49,9 @@ def write_all(image: bytes, work: str) -> dict:
     w("xr.bin", image)
     # ... written the way ripping tools write it: disc-level lines in front of FILE
     head = ['REM GENRE "Sampling CD"\n', "REM DATE 1994\n", "CATALOG 0000000000000\n", 'PERFORMER "Various"\n', 'TITLE "Sound Library Vol. 1"\n']
-    paths["cue_raw_mixed"] = w("XR.CUE", "".join(head + cue_text("xr.bin", "MODE1/2048") + audio), "w")      # recognition is by content, not by name
+    # ... with titles and performers that mention the sheet's own keywords (a TITLE is text, not a command)
+    wordy = ["  TRACK 02 AUDIO\n", '    TITLE "Bonus Track 2 Live"\n', '    PERFORMER "The Index 01 File"\n', "    INDEX 00 00:02:00\n", "    INDEX 01 00:04:00\n"]
+    paths["cue_raw_mixed"] = w("XR.CUE", "".join(head + cue_text("xr.bin", "MODE1/2048") + wordy), "w")      # recognition is by content, not by name
     w("xm.bin", to_mode1_2352(image))
     # ... and with lower-case keywords and CR LF line ends
     lines = cue_text("xm.bin", "MODE1/2352") + audio + ["  TRACK 03 AUDIO\n", "    INDEX 01 00:09:00\n"]
